@@ -99,7 +99,7 @@ def check_state(live, ops, k, out, stats, results=None):
     npre = len(lines)
     for p in paths:
         lines += ["mro " + p, "derived " + p]
-    res = core.run_driver("struct", lines)[npre:]
+    res = core.DriverProc.ask("struct", lines)[npre:]
     py = W.python_c3(defs)
     exp = W.expected_members(defs, py)
     nontrivial = False
